@@ -37,6 +37,8 @@ class VHD(AlignedStream):
     def _read(self, offset: int, length: int) -> bytes:
         sector = offset // SECTOR_SIZE
         count = (length + SECTOR_SIZE - 1) // SECTOR_SIZE
+        # The last aligned read of the stream may extend past the end of the disk, don't read beyond it
+        count = min(count, (self.size + SECTOR_SIZE - 1) // SECTOR_SIZE - sector)
 
         return self.disk.read_sectors(sector, count)
 
